@@ -196,9 +196,19 @@ def rule_transformed_before_executed(ctx):
     ctx.floor("C01.d traces", n, 1)
 
 
+def rule_clone(ctx):
+    """C01.g: CLONE is rewritten to CREATE TABLE <target> AS SELECT * FROM <source> (one of C01's ingestion paths)."""
+    from .c10_wiring import cases
+    from .wiring import run_cases
+
+    n = run_cases(ctx, "C01.g", [c for c in cases() if c[1] == "create_clone"])
+    ctx.floor("C01.g clone wiring cases", n, 1)
+
+
 from .c08 import rule_client_side, rule_server_side  # noqa: E402  (bound parameters are one of C01's ingestion paths)
 
 RULES = [
+    ("C01.g", rule_clone, ("quick", "thorough")),
     ("C01.e", rule_client_side, ("quick", "thorough")),
     ("C01.f", rule_server_side, ("quick", "thorough")),
     ("C01.a", rule_width, ("quick", "thorough")),
